@@ -22,7 +22,7 @@
                                                   -> chunks=<start:end:card;...> memb=<for each accepted poll: the chunks (i+j.. or -)
                                                      that hold its address> ret=<clock when each accepted poll returned> uniq=...
                 metrics jsoak <goroutines> <polls each> <interval us> <write us>   unforced concurrent polls, slow sink
-                                                  -> polls=<n> lost=0 misplaced=0 twice=0 extra=0 tiled=1
+                                                  -> polls=<n> lost=0 misplaced=0 twice=0 tiled=1
                 the ipc op  gl,<n>  = LoadGeoipDatabases: n = 0 fails (no table afterwards), n >= 1 loads a pair of files
    For [conc]/[race] the model answer is computed with the sequential [incsN]; by C19_inc_conc (repaired
    machine) every interleaving of the Incs publishes exactly this value at every quiescent point. *)
@@ -478,7 +478,7 @@ Definition run_conc_journal (args : list bytes) : option bytes :=
         match dec_parse g, dec_parse n with
         | Some g, Some n =>
             if (1 <=? g) && (1 <=? n) then
-              Some (bs "polls=" ++ dec_print (g * n) ++ bs " lost=0 misplaced=0 twice=0 extra=0 tiled=1")
+              Some (bs "polls=" ++ dec_print (g * n) ++ bs " lost=0 misplaced=0 twice=0 tiled=1")
             else None
         | _, _ => None
         end
